@@ -281,6 +281,7 @@ INJECT_SOURCES = [
     },
 ]  # fmt: skip
 INJECT_NTH = ["first", "last"]
+INJECT_ALL_CAP = 24  # thorough: every call position 1..24 of every seam in every query
 N_INJECT_TEMPLATES = len(INJECT_SOURCES) * len(FAST_QUERIES) * len(INJECT_TARGETS) * len(INJECT_NTH)
 
 
